@@ -1130,6 +1130,7 @@ pub fn run_sched(ctx: &Ctx, u: &mut TreeUniverse, report: &mut Report, monitor: 
         }
     }
     report.max_counter("max_family_S_wall_ms_per_worker", t_s.elapsed().as_millis() as u64);
+    report.max_counter("max_worker_rss_mb_after_family_S", rss_mb());
 }
 
 
@@ -1260,4 +1261,8 @@ pub fn sched_family_with_monitor(ctx: &Ctx, report: &mut Report, monitor: &dyn F
         return;
     }
     run_sched(ctx, &mut u, report, Some(monitor), Some("cut/"));
+}
+
+fn rss_mb() -> u64 {
+    std::fs::read_to_string("/proc/self/status").ok().and_then(|t| t.lines().find_map(|l| l.strip_prefix("VmRSS:").and_then(|r| r.trim().trim_end_matches("kB").trim().parse::<u64>().ok()))).map(|kb| kb / 1024).unwrap_or(0)
 }
